@@ -6,6 +6,8 @@
 set -e
 PATCH="$1"; PROP="$2"; TIER="${3:-quick}"; TEST="$4"
 M=/dev/shm/verif-mut
+# one rehearsal at a time: the scratch copies are shared (warm cargo target)
+exec 9>/dev/shm/verif-mut.lock; flock 9
 mkdir -p $M/repo $M/verif $M/work
 rsync -a --delete --exclude target --exclude .git /repo/ $M/repo/
 rsync -a --delete --exclude target --exclude .git --exclude evidence --exclude replays /verif/ $M/verif/
